@@ -45,7 +45,7 @@ def run(ctx):
     ctx.gate = core.proof_gate("C04")
     for _ in ctx.gate["theorems"]:
         ctx.oblige(True)
-    cases = gen_cases(ctx, ctx.n(350, 4000), ctx.n(30, 100))
+    cases = gen_cases(ctx, ctx.n(350, 1500), ctx.n(30, 80))
     results = lr.run_cases(cases, rec=True)
     # keep the property's domain: conflict-free tables of productive grammars
     dom = []
